@@ -1044,3 +1044,11 @@ Proof.
   exists lp, seed, rp, sd0, ds. rewrite Hd. auto.
 Qed.
 End Final.
+
+Lemma nth_error_ext_ {A} (l l' : list A) : (forall i, nth_error l i = nth_error l' i) -> l = l'.
+Proof.
+  revert l'. induction l as [|a l IH]; intros [|b l'] H; auto.
+  - specialize (H 0%nat). discriminate.
+  - specialize (H 0%nat). discriminate.
+  - f_equal; [specialize (H 0%nat); now injection H | apply IH; intro i; exact (H (Datatypes.S i))].
+Qed.
